@@ -36,6 +36,10 @@ def c14(tier, seed):
             if rng.random() < 0.3:
                 v = v + rng.choice([": ", ":", "=", " ", ": x: y"]) + text(rng, rng.randrange(0, 5))
             hs.append({"n": text(rng, rng.randrange(1, 16), TOKEN), "v": v})
+            if rng.random() < 0.15:
+                # the same name again in another spelling (lookup must not depend on the spelling asked for)
+                n2 = rng.choice([str.upper, str.lower, str.swapcase, str.title])(hs[-1]["n"])
+                hs.insert(rng.randrange(len(hs) + 1), {"n": n2, "v": text(rng, 6, TOKEN)})
         out.append({"kind": "roundtrip", "method": rng.choice(["GET", "HEAD", "POST", "PUT", "DELETE", "CONNECT", "OPTIONS", "TRACE", "PATCH"]),
                     "target": "/" + text(rng, rng.randrange(0, 30), forbid=" "), "version": rng.choice(["HTTP/0.9", "HTTP/1.0", "HTTP/1.1", "HTTP/2.0"]),
                     "headers": hs, "body": rbytes(rng, rng.choice([0, 1, 2, 7, 100, 2000]))})
@@ -94,6 +98,11 @@ def c17(tier, seed):
             v = text(rng, rng.randrange(1, 12), alpha).strip()
             if v:
                 pairs.append([k, v])
+            # distinct keys that differ only in letter case are distinct fields
+            k2 = k.swapcase()
+            if rng.random() < 0.2 and k2 != k and k2 not in keys:
+                keys.add(k2)
+                pairs.append([k2, text(rng, 4, TOKEN)])
         out.append({"kind": "map", "pairs": pairs})
     return out
 
@@ -109,7 +118,8 @@ def c19(tier, seed):
         return str(rng.randrange(-(1 << bits), 1 << bits))
 
     def flt():
-        return repr(rng.choice([rng.uniform(-1e6, 1e6), rng.uniform(-1, 1), rng.random() * 10 ** rng.randrange(-300, 300), float(rng.randrange(-1000, 1000))]))
+        return repr(rng.choice([rng.uniform(-1e6, 1e6), rng.uniform(-1, 1), rng.choice([-1, 1]) * rng.random() * 10 ** rng.randrange(-300, 300),
+                                float(rng.randrange(-1000, 1000)), rng.choice([-1, 1]) * rng.random() * 10 ** rng.randrange(-12, -3)]))
 
     def s():
         return text(rng, rng.randrange(0, 12), [c for c in PRINTABLE if c not in '"\\'])
@@ -133,7 +143,10 @@ def c19(tier, seed):
             b = lim[ty]
             items = [str(rng.randrange(0, 1 << b) if ty[0] == "u" else rng.randrange(-(1 << b), 1 << b)) for _ in range(n)]
         elif ty in ("f64", "f32"):
-            items = [repr(rng.uniform(-1e3, 1e3)) if ty == "f64" else repr(float(rng.randrange(-1000, 1000)) / 8) for _ in range(n)]
+            # every magnitude class in both signs: tiny and huge values are where writers switch notation
+            items = [flt() if ty == "f64" else
+                     repr(rng.choice([float(rng.randrange(-1000, 1000)) / 8, rng.choice([-1, 1]) * rng.random() * 10 ** rng.randrange(-30, 30)]))
+                     for _ in range(n)]
         elif ty == "string":
             items = [s() for _ in range(n)]
         else:
